@@ -146,6 +146,109 @@ theorem clear_empties_all (caches : List (PCache κ ν)) :
   obtain ⟨c0, _, rfl⟩ := List.mem_map.mp hc
   simp [PCache.clear]
 
+/-! ### Every live cache: caches created later, copied, deep-copied or unpickled are live caches too
+
+`ParseCache.__new__` registers every new object - also the one `copy.copy`, `copy.deepcopy` and `pickle.loads` create - in
+the class-level set that `clear_caches()` walks.  `MWorld` is that set: a list of caches and the shared generation. -/
+
+inductive MOp (κ ν : Type) where
+  | on (i : Nat) (op : COp κ ν)        -- an operation on cache number i (`clear` / `bump` are class-level)
+  | new (maxSize : Option Nat)          -- ParseCache(maxSize)
+  | copy (i : Nat)                      -- copy.deepcopy / pickle round trip of cache i: same limit, entries, order, counters
+
+structure MWorld (κ ν : Type) where
+  g : Nat
+  caches : List (PCache κ ν)
+
+def MWorld.step (w : MWorld κ ν) : MOp κ ν → MWorld κ ν
+  | .new m => { w with caches := w.caches ++ [PCache.new m w.g] }
+  | .copy i => match w.caches[i]? with
+    | some c => { w with caches := w.caches ++ [c] }
+    | none => w
+  | .on _ .clear => { w with caches := w.caches.map PCache.clear }
+  | .on _ .bump => { w with g := w.g + 1 }
+  | .on i op => match w.caches[i]? with
+    | some c => { w with caches := w.caches.set i ((World.step ⟨w.g, c⟩ op).1.c) }
+    | none => w
+
+def MWorld.run (w : MWorld κ ν) (ops : List (MOp κ ν)) : MWorld κ ν := ops.foldl MWorld.step w
+
+theorem mworld_inv_step (w : MWorld κ ν) (h : ∀ c ∈ w.caches, Inv c) (op : MOp κ ν) : ∀ c ∈ (w.step op).caches, Inv c := by
+  cases op with
+  | new m =>
+    intro c hc
+    simp only [MWorld.step, List.mem_append, List.mem_singleton] at hc
+    rcases hc with hc | rfl
+    · exact h c hc
+    · exact inv_new _ _
+  | copy i =>
+    intro c hc
+    simp only [MWorld.step] at hc
+    split at hc
+    · rename_i c0 h0
+      simp only [List.mem_append, List.mem_singleton] at hc
+      rcases hc with hc | rfl
+      · exact h c hc
+      · exact h _ (List.mem_of_getElem? h0)
+    · exact h c hc
+  | on i op =>
+    intro c hc
+    cases op with
+    | clear =>
+      simp only [MWorld.step, List.mem_map] at hc
+      obtain ⟨c0, _, rfl⟩ := hc
+      exact inv_clear
+    | bump => exact h c (by simpa [MWorld.step] using hc)
+    | get k =>
+      simp only [MWorld.step] at hc
+      split at hc
+      · rename_i c0 h0
+        rcases List.mem_or_eq_of_mem_set hc with hc | rfl
+        · exact h c hc
+        · exact inv_step (w := ⟨w.g, c0⟩) (h _ (List.mem_of_getElem? h0)) _
+      · exact h c hc
+    | set k v =>
+      simp only [MWorld.step] at hc
+      split at hc
+      · rename_i c0 h0
+        rcases List.mem_or_eq_of_mem_set hc with hc | rfl
+        · exact h c hc
+        · exact inv_step (w := ⟨w.g, c0⟩) (h _ (List.mem_of_getElem? h0)) _
+      · exact h c hc
+    | del k =>
+      simp only [MWorld.step] at hc
+      split at hc
+      · rename_i c0 h0
+        rcases List.mem_or_eq_of_mem_set hc with hc | rfl
+        · exact h c hc
+        · exact inv_step (w := ⟨w.g, c0⟩) (h _ (List.mem_of_getElem? h0)) _
+      · exact h c hc
+
+/-- **every live cache, however it came into being, keeps its limit** - for all operation sequences that create caches,
+copy them and operate on any of them -/
+theorem every_live_cache_keeps_its_limit (ops : List (MOp κ ν)) :
+    ∀ c ∈ ((⟨0, []⟩ : MWorld κ ν).run ops).caches,
+      (keysOf c.entries).Nodup ∧ ∀ n, c.maxSize = some n → n ≥ 1 → c.entries.length ≤ n := by
+  have : ∀ (w : MWorld κ ν), (∀ c ∈ w.caches, Inv c) → ∀ c ∈ (w.run ops).caches, Inv c := by
+    induction ops with
+    | nil => intro w h; exact h
+    | cons op ops ih => intro w h; exact ih (w.step op) (mworld_inv_step w h op)
+  exact this ⟨0, []⟩ (by simp)
+
+/-- **clearing reaches every live cache** - the copied and the later-created ones included: after `clear_caches()` every
+cache of the world is empty with zero counters, whatever happened before -/
+theorem clear_reaches_every_live_cache (w : MWorld κ ν) (ops : List (MOp κ ν)) (i : Nat) :
+    ∀ c ∈ ((w.run ops).step (.on i .clear)).caches, c.entries = [] ∧ c.hits = 0 ∧ c.misses = 0 := by
+  intro c hc
+  simp only [MWorld.step] at hc
+  exact clear_empties_all _ c hc
+
+/-- non-vacuity: a limited cache is filled, copied, both are used, then cleared -/
+example :
+    let w := (⟨0, []⟩ : MWorld Nat Nat).run [.new (some 2), .on 0 (.set 1 10), .on 0 (.set 2 20), .copy 0, .on 1 (.set 3 30), .on 1 (.get 2), .on 0 (.get 9)]
+    w.caches.map (fun c => (keysOf c.entries, c.hits, c.misses)) = [([1, 2], 0, 1), ([3, 2], 1, 0)]
+    ∧ ((w.step (.on 0 .clear)).caches.map (fun c => (keysOf c.entries, c.hits, c.misses))) = [([], 0, 0), ([], 0, 0)] := by decide
+
 /-- (6, quirk stated separately) storing under a key that is already present replaces the value
 but does not refresh its position: the key order is unchanged. -/
 theorem overwrite_keeps_order (g : Nat) (c : PCache κ ν) (k : κ) (v : ν) (hc : Inv c)
